@@ -104,8 +104,12 @@ fn digit_class(t: i64) -> &'static str {
 
 /// local UTC offset (minutes) of the two configured zones at the instants used for PER
 fn offset_min(tz: &str, t: i64) -> i64 {
-    if tz == "UTC" {
-        return 0;
+    match tz {
+        "UTC" => return 0,
+        // zones without DST whose offset is not a whole number of hours
+        "Asia/Kolkata" => return 330,
+        "Asia/Kathmandu" => return 345,
+        _ => {}
     }
     // Europe/Amsterdam: CEST (+2) from the last Sunday of March 01:00Z to the last Sunday of October 01:00Z
     let (y, _, _, _, _, _) = civil(t);
@@ -149,7 +153,11 @@ pub fn check(tier: &str) -> i32 {
     let wide: Vec<i64> = vec![-86401, -1, 0, 1, 59, 3599, 3600, 86399, 86400, 999_999_999, 1_000_000_000, 99_999_999_999, 1_700_000_000, 4_000_000_000];
     // narrow cluster (one week of 2023-11 and one summer day) for flushed layouts and PER
     let narrow: Vec<i64> = vec![1_699_999_999, 1_700_000_000, 1_700_003_599, 1_700_003_600, 1_700_006_400, 1_700_092_799, 1_700_352_000, 1_700_438_400, 1_688_162_400];
-    let cfgs: Vec<(String, String)> = if tier == "quick" { vec![("UTC".into(), "Mon".into()), ("Europe/Amsterdam".into(), "Sun".into())] } else { vec![("UTC".into(), "Mon".into()), ("UTC".into(), "Sun".into()), ("Europe/Amsterdam".into(), "Mon".into()), ("Europe/Amsterdam".into(), "Sun".into())] };
+    let cfgs: Vec<(String, String)> = if tier == "quick" {
+        vec![("UTC".into(), "Mon".into()), ("Europe/Amsterdam".into(), "Sun".into()), ("Asia/Kolkata".into(), "Mon".into())]
+    } else {
+        vec![("UTC".into(), "Mon".into()), ("UTC".into(), "Sun".into()), ("Europe/Amsterdam".into(), "Mon".into()), ("Europe/Amsterdam".into(), "Sun".into()), ("Asia/Kolkata".into(), "Mon".into()), ("Asia/Kolkata".into(), "Sun".into()), ("Asia/Kathmandu".into(), "Sun".into())]
+    };
     // (dataset name, instants, flush?)
     let sets: Vec<(&str, Vec<i64>, bool)> = vec![("wide/memory", wide.clone(), false), ("narrow/memory", narrow.clone(), false), ("narrow/flushed", narrow.clone(), true)];
     let ops6 = ["=", "!=", "<", "<=", ">", ">="];
@@ -348,7 +356,7 @@ pub fn check(tier: &str) -> i32 {
             "failing_classes": classes.len(),
             "exhaustive": true,
         }),
-        assumptions: vec!["independent integer calendar arithmetic (proleptic Gregorian; Europe/Amsterdam = CET/CEST with EU switch dates) - instants for PER are chosen away from DST switches".into(), "the flushed layout uses only the narrow cluster: the temporal index builder enumerates every bucket between the smallest and largest instant of a segment, which does not terminate in reasonable time for spans of decades (observed: 53 years = 60 s CPU)".into()],
+        assumptions: vec!["independent integer calendar arithmetic (proleptic Gregorian; Europe/Amsterdam = CET/CEST with EU switch dates; Asia/Kolkata = +05:30 and Asia/Kathmandu = +05:45 without DST) - instants for PER are chosen away from DST switches".into(), "the flushed layout uses only the narrow cluster: the temporal index builder enumerates every bucket between the smallest and largest instant of a segment, which does not terminate in reasonable time for spans of decades (observed: 53 years = 60 s CPU)".into()],
         wall_s: t0.elapsed().as_secs_f64(),
         violations: nv,
     });
